@@ -47,6 +47,12 @@ UNIVERSE = {"int": INT, "float": FLOAT, "str": STR, "list": LIST}
 
 
 def exhaustive(tier):
+    # two length forms in one set (lower-bound-only with upper-bound-only, exact with a range, ...):
+    # every order must be rejected alike, whichever form comes first
+    for typ in ("str", "list"):
+        for base in BASES[typ]:
+            for f1, f2 in itertools.combinations(LEN_FORMS, 2):
+                yield {"type": typ, "base": base, "refs": [["len"] + f1, ["len"] + f2]}
     for typ, uni in UNIVERSE.items():
         kinds = sorted(uni)
         for base in BASES[typ]:
